@@ -96,7 +96,16 @@ func Expr(e Node) string {
 	case "group":
 		return "(" + Expr(e["e"].(Node)) + ")"
 	case "field":
-		return "$(" + Expr(e["e"].(Node)) + ")"
+		// $2 and $i are spelled without parentheses, so that the syntax tree has a bare
+		// constant / variable under the field node (the compiler special-cases those shapes)
+		ix := e["e"].(Node)
+		if kind(ix) == "num" && intOf(ix["n"]) >= 0 {
+			return fmt.Sprintf("$%d", intOf(ix["n"]))
+		}
+		if kind(ix) == "var" {
+			return "$" + ix["name"].(string)
+		}
+		return "$(" + Expr(ix) + ")"
 	case "fieldc": // $<constant> spelled without parentheses
 		return fmt.Sprintf("$%d", intOf(e["n"]))
 	case "idx":
@@ -110,6 +119,16 @@ func Expr(e Node) string {
 	case "un":
 		return "(" + e["op"].(string) + "(" + Expr(e["e"].(Node)) + "))"
 	case "bin":
+		if e["op"].(string) == "cat" {
+			// a left-nested chain a b c is written without parentheses around the chain itself
+			// (the compiler flattens exactly that tree shape into one multi-operand instruction)
+			l := e["l"].(Node)
+			ls := "(" + Expr(l) + ")"
+			if kind(l) == "bin" && l["op"].(string) == "cat" {
+				ls = Bare(l)
+			}
+			return "(" + ls + " (" + Expr(e["r"].(Node)) + "))"
+		}
 		return "((" + Expr(e["l"].(Node)) + ") " + binOps[e["op"].(string)] + " (" + Expr(e["r"].(Node)) + "))"
 	case "match":
 		op := "~"
@@ -118,7 +137,14 @@ func Expr(e Node) string {
 		}
 		return "((" + Expr(e["e"].(Node)) + ") " + op + " /" + RegexSrc(e["re"].(Node)) + "/)"
 	case "cond":
-		return "((" + Expr(e["c"].(Node)) + ") ? (" + Expr(e["t"].(Node)) + ") : (" + Expr(e["f"].(Node)) + "))"
+		// the condition is left bare when it is a comparison (binds tighter than ?:), so that the
+		// tree has the comparison directly under the conditional
+		c := e["c"].(Node)
+		cs := "(" + Expr(c) + ")"
+		if kind(c) == "bin" && isCmp(c["op"].(string)) {
+			cs = Bare(c)
+		}
+		return "(" + cs + " ? (" + Expr(e["t"].(Node)) + ") : (" + Expr(e["f"].(Node)) + "))"
 	case "assign":
 		return "(" + Expr(e["lv"].(Node)) + " = (" + Expr(e["e"].(Node)) + "))"
 	case "aug":
@@ -128,6 +154,14 @@ func Expr(e Node) string {
 			return "(" + e["op"].(string) + Expr(e["lv"].(Node)) + ")"
 		}
 		return "(" + Expr(e["lv"].(Node)) + e["op"].(string) + ")"
+	case "re0":
+		return "/" + RegexSrc(e["re"].(Node)) + "/"
+	case "subst":
+		f := "sub"
+		if b, _ := e["global"].(bool); b {
+			f = "gsub"
+		}
+		return f + "(/" + RegexSrc(e["re"].(Node)) + "/, " + Expr(e["repl"].(Node)) + ", " + Expr(e["lv"].(Node)) + ")"
 	case "call":
 		return e["f"].(string) + "(" + exprList(nodes(e["args"])) + ")"
 	case "bi":
@@ -142,6 +176,29 @@ func Expr(e Node) string {
 		return f + "(" + exprList(args) + ")"
 	}
 	panic("awkast: unknown expression node " + kind(e))
+}
+
+func isCmp(op string) bool {
+	switch op {
+	case "<", "<=", "==", "!=", ">", ">=":
+		return true
+	}
+	return false
+}
+
+// Bare renders an expression without the outermost pair of parentheses that
+// Expr puts around every operator application; used where the expression is
+// already delimited (conditions, patterns), so that the syntax tree has the
+// operator node itself in that position and not a grouping node.
+func Bare(e Node) string {
+	s := Expr(e)
+	switch kind(e) {
+	case "bin", "cond", "match", "assign", "aug", "incr", "un", "in":
+		if len(s) >= 2 && s[0] == '(' && s[len(s)-1] == ')' {
+			return s[1 : len(s)-1]
+		}
+	}
+	return s
 }
 
 func exprList(es []Node) string {
@@ -162,12 +219,11 @@ func Subscript(e Node) string {
 // statement-position expressions are written bare (no outer parentheses) so
 // that the compiler's statement-level shortcuts apply
 func bareExpr(e Node) string {
-	s := Expr(e)
 	switch kind(e) {
 	case "assign", "aug", "incr":
-		return s[1 : len(s)-1]
+		return Bare(e)
 	}
-	return s
+	return Expr(e)
 }
 
 func Stmts(ss []Node, ind string) string {
@@ -199,20 +255,22 @@ func Stmt(s Node, ind string) string {
 			return ind + "print\n"
 		}
 		return ind + "print " + exprList(args) + "\n"
+	case "printf":
+		return ind + "printf " + exprList(nodes(s["args"])) + "\n"
 	case "if":
-		out := ind + "if (" + Expr(s["c"].(Node)) + ") " + block(nodes(s["t"]), ind)
+		out := ind + "if (" + Bare(s["c"].(Node)) + ") " + block(nodes(s["t"]), ind)
 		if f := nodes(s["f"]); len(f) > 0 {
 			out += " else " + block(f, ind)
 		}
 		return out + "\n"
 	case "while":
-		return ind + "while (" + Expr(s["c"].(Node)) + ") " + block(nodes(s["b"]), ind) + "\n"
+		return ind + "while (" + Bare(s["c"].(Node)) + ") " + block(nodes(s["b"]), ind) + "\n"
 	case "do":
-		return ind + "do " + block(nodes(s["b"]), ind) + " while (" + Expr(s["c"].(Node)) + ")\n"
+		return ind + "do " + block(nodes(s["b"]), ind) + " while (" + Bare(s["c"].(Node)) + ")\n"
 	case "for":
 		c := ""
 		if cn := s["c"].(Node); kind(cn) != "none" {
-			c = Expr(cn)
+			c = Bare(cn)
 		}
 		return ind + "for (" + simple(s["pre"].(Node)) + "; " + c + "; " + simple(s["post"].(Node)) + ") " +
 			block(nodes(s["b"]), ind) + "\n"
